@@ -4,6 +4,10 @@ import itertools
 import wire
 from vlib import Case
 
+# every case of this module is a direct operator / builtin / codec application whose size the oracle computes:
+# a "capacity overflow" panic is never excused here
+MEMORY_EXCLUSION_IN_UNCONSTRAINED = False
+
 RULE = ("op `builtin <name> <args>`: the builtin is called through the real VM (GetBuiltinFn/Call, so the error prefixing of call_builtin is exercised) and through the Lean model; "
         "Spec.Builtins (from docs/language/builtins.md) gives the documented value / 'a value, not an error' for documented kinds / runtime error naming the builtin otherwise; "
         "cases = every pure builtin x arity 0..3 x argument kinds x boundary and random values + the round-trip laws; non-trivial = value or named runtime error")
